@@ -43,14 +43,14 @@ class Monitor:
             M.register_callback(self.tid, M.events.RAISE, self._raise)
             M.set_events(self.tid, M.events.RAISE)
         for c in codes:
-            if c not in self.codes:
+            if id(c) not in self.codes:           # by identity: a re-executed module has equal but new code objects
                 M.set_local_events(self.tid, c, M.events.LINE)
-                self.codes[c] = c.co_name
+                self.codes[id(c)] = c
 
     def stop(self):
         M = self.M
         if self.tid is not None:
-            for c in self.codes:
+            for c in self.codes.values():
                 M.set_local_events(self.tid, c, 0)
             M.set_events(self.tid, 0)
             M.register_callback(self.tid, M.events.LINE, None)
@@ -60,7 +60,7 @@ class Monitor:
 
     def _line(self, code, line):
         r = self.run
-        if r is None or code not in self.codes:
+        if r is None or id(code) not in self.codes:
             return
         idx = len(r.events)
         r.events.append((code.co_name, line))
@@ -75,7 +75,7 @@ class Monitor:
 
     def _raise(self, code, offset, exc):
         r = self.run
-        if r is None or code not in self.codes:
+        if r is None or id(code) not in self.codes:
             return
         if id(exc) in r.seen_exc:
             return
@@ -118,9 +118,35 @@ def stub(run, name, ret=None, fn=None):
 
 
 # ---------------------------------------------------------------- window_score
-def window_targets():
-    from pydl.photoop import window
-    return [window.window_score.__code__]
+MODULES = {'window_score': 'pydl.photoop.window', 'template_input': 'pydl.pydlspec2d.spec1d'}
+
+
+def code_of(obj):
+    """code object of a function / method / @contextmanager generator function"""
+    obj = getattr(obj, '__wrapped__', obj)
+    obj = getattr(obj, '__func__', obj)
+    return getattr(obj, '__code__', None)
+
+
+def codes_for(func, inlined, reload=False):
+    """code objects of a target function and of everything the translator inlined into it
+    (names 'helper' or 'Class.method'); reload=True re-executes the module first, which resets
+    its module-level state"""
+    import importlib
+    mod = importlib.import_module(MODULES[func])
+    if reload:
+        mod = importlib.reload(mod)
+    out = []
+    for q in [func] + sorted(inlined):
+        obj = mod
+        for part in q.split('.'):
+            obj = getattr(obj, part, None)
+            if obj is None:
+                break
+        c = code_of(obj) if obj is not None else None
+        if c is not None:
+            out.append(c)
+    return out
 
 
 def window_call(run, variant):
@@ -167,11 +193,6 @@ EIGENOBJ 3587 55182 186 0.35 100.0
 EIGENOBJ 3587 55182 220 0.45 200.0
 EIGENOBJ 3588 55184 208 0.78 300.0
 '''
-
-
-def template_targets():
-    from pydl.pydlspec2d import spec1d
-    return [spec1d.template_input.__code__, spec1d.template_metadata.__code__]
 
 
 def template_prepare(tmp, variant):
